@@ -367,7 +367,32 @@ def unit_bounded_split_histories(U):
     U.bounded_result("C02.bounded.split_histories", "the Parent graph after every step of create_db + update()s is that of the features stored so far",
                      "4-rank chain and 2-parent diamond x every assignment of the features to 2 / 3 steps x memory / file", cases, fails)
 
-UNITS = [("bounded.split_histories", unit_bounded_split_histories), ("bounded.nested_walk", unit_bounded_nested_walk), ("bounded.after_abort", unit_bounded_after_abort), ("schema", unit_schema), ("query", unit_query)] + IM.c02_units() + [("parse.parents", unit_parse_parents), ("bounded.text", unit_bounded_text)]
+def unit_bounded_many(U):
+    """Bounded: the Parent graph of a LARGE file (1200 features; genes, mRNAs and exons interleaved so that every kind of
+    feature sits on the 500th and 1000th line in one of the three rotations) - batch or block boundaries of the importer"""
+    fails, cases = [], 0
+    mk = lambda i, t, par=None: F.Feature(seqid="c", source="s", featuretype=t, start=1, end=9, strand="+", attributes=dict({"ID": [i]}, **({"Parent": par} if par else {})))
+    for rot in (0, 1, 2):
+        feats = [mk("pad%d" % i, "region") for i in range(rot)]
+        g = 0
+        while len(feats) < 1200:
+            g += 1
+            feats += [mk("g%d" % g, "gene"), mk("m%d" % g, "mRNA", ["g%d" % g]), mk("e%d" % g, "exon", ["m%d" % g])]
+        cases += 1
+        try:
+            db = gffutils.create_db([IM._copyf(f) for f in feats], ":memory:")
+            rel = {(r["parent"], r["child"], r["level"]) for r in db.execute("SELECT parent, child, level FROM relations")}
+            exp = set()
+            for k in range(1, g + 1):
+                exp |= {("g%d" % k, "m%d" % k, 1), ("m%d" % k, "e%d" % k, 1), ("g%d" % k, "e%d" % k, 2)}
+            if rel != exp:
+                miss, extra = sorted(exp - rel)[:5], sorted(rel - exp)[:5]
+                fails.append({"case": {"features": len(feats), "line 500 / 1000": [str(feats[499]), str(feats[999])]}, "expected": "%d relations" % len(exp), "observed": {"missing": miss, "unexpected": extra}})
+        except Exception as e:
+            fails.append({"case": {"features": len(feats)}, "expected": "no exception", "observed": repr(e)})
+    U.bounded_result("C02.bounded.many_features", "relations of a 1200-feature file == its Parent graph, whatever feature sits on line 500 / 1000", "3 rotations of gene / mRNA / exon triples", cases, fails)
+
+UNITS = [("bounded.many", unit_bounded_many), ("bounded.split_histories", unit_bounded_split_histories), ("bounded.nested_walk", unit_bounded_nested_walk), ("bounded.after_abort", unit_bounded_after_abort), ("schema", unit_schema), ("query", unit_query)] + IM.c02_units() + [("parse.parents", unit_parse_parents), ("bounded.text", unit_bounded_text)]
 
 
 def replay_file(doc):
